@@ -39,7 +39,7 @@ ESend == /\ Ev.e = "send"
 TimeOfAns(k) == LET c == {i \in DOMAIN ans : ans[i].n = k} IN ans[CHOOSE i \in c : TRUE].t
 PrevTx(r) == LET c == {i \in DOMAIN wire : wire[i].req = r} IN wire[CHOOSE i \in c : \A j \in c : j <= i].t
 AnsweredBeforeDue(rtx, r) ==
-    LET a == P!AnsweredAt(rtx, ans, r) IN a # 0 /\ TimeOfAns(a) < PrevTx(r) + reqs[r].tmo
+    LET a == P!AnsState(reqs, rtx, ans)[r] IN a # 0 /\ a # P!Maybe /\ TimeOfAns(a) < PrevTx(r) + reqs[r].tmo
 
 ETx == /\ Ev.e = "tx"
        /\ LET first == ~\E i \in DOMAIN wire : wire[i].req = Ev.req
@@ -81,7 +81,7 @@ Gaps(r) == LET c == {i \in DOMAIN wire : wire[i].req = r} IN
 
 \* while its link is open and it is unanswered a request keeps being retransmitted at its interval
 EEnd == /\ Ev.e = "end"
-        /\ LET am == P!AnsMap(reqs, ans)
+        /\ LET am == P!AnsState(reqs, reqsTx, ans)
                owed == {r \in DOMAIN reqs : am[r] = 0 /\ reqs[r].sess = Ev.sess /\ Ev.sess # 0}
            IN Fail(IF Reliable \/ ~Ev.strict THEN "ok"
                    ELSE IF \E r \in owed : LastTx(r) + reqs[r].tmo < Ev.t THEN "RetryStopped"
